@@ -1,10 +1,15 @@
+mod chain;
 mod evm;
+mod fidelity;
 mod framework;
 mod market;
+mod miner;
+mod minerops;
 mod refevm;
 mod mvm;
 mod props;
 mod rng;
+mod selftest;
 mod world;
 
 use framework::{Cfg, Tier};
@@ -43,6 +48,7 @@ fn main() {
             let cfg = Cfg { prop: args[2].clone(), tier, seed, threads, only: None };
             std::process::exit(props::dispatch(&cfg));
         }
+        "selftest" => std::process::exit(selftest::run()),
         "replay" => {
             if args.len() < 4 {
                 usage();
